@@ -1,6 +1,7 @@
 /// Verification harness, compiled into the crate under test (cfg(zinoma_verif)).
 pub mod verif {
     pub mod bb;
+    pub mod bb_c03w;
     pub mod bb_c05;
     pub mod bb_c06;
     pub mod bb_c10;
